@@ -3,6 +3,9 @@ import warnings
 
 DURS = [4, 'd', 'd*2', 8]
 MID = {4: 2, 'd': 'd/2', 'd*2': 'd', 8: 'd'}
+# other expressions for the same duration under both probe assignments of c10.PROBES (d = 4 / 8, a + c = 4 / 8, b*2 = 4 / 8)
+DUR_ALIAS = {'d': ['a + c', 'b*2'], 'd*2': ['b*4', '2*a + 2*c']}
+UNSORTED_POOLS = [['B', 'A'], ['Y', 'X'], ['b9', 'b10'], ['b10', 'b9', 'B'], ['b', 'B'], ['C', 'A', 'B'], ['a', 'B', 'c']]
 VALS = [0, 1, -1, 0.5, 2.25, 0.30000000000000004, 0.3333333333333333, 'a', 'v', 'v*2', 'a+b', 'w/4', 'x', 'y', 'a*x', 'b-c', '1/3', 'Max(a, b)', 3]
 CONSTRAINTS = ['a < b', 'b <= c', 'd > 0', 'n >= 0', 'a + b == c', 'v*2 >= w', 'c > a']
 INTERP = ['hold', 'linear', 'jump', 'default']
@@ -50,7 +53,11 @@ def build_node(n, objs):
                                 ArithmeticAtomicPT, TimeReversalPT)
     from qupulse.pulses.abstract_pulse_template import AbstractPulseTemplate
     k, ident = n['k'], n.get('id')
-    ch = lambda i: objs[i]
+
+    def ch(i):
+        if isinstance(i, dict) and 'tuple' in i:        # (template, mapping, ...) member: MappingPT.from_tuple in the constructor
+            return tuple([objs[i['tuple'][0]]] + [{a: b for a, b in m} for m in i['tuple'][1:]])
+        return objs[i]
     if k == 'Table':
         return TablePT({c: [tuple(e) for e in es] for c, es in n['entries']}, identifier=ident,
                        **_kwx(n, 'parameter_constraints', 'measurements'))
@@ -71,7 +78,7 @@ def build_node(n, objs):
         return RepetitionPT(ch(n['body']), n['count'], identifier=ident, **_kwx(n, 'parameter_constraints', 'measurements'))
     if k == 'ForLoop':
         r = n['rng']
-        return ForLoopPT(ch(n['body']), n['idx'], tuple(r) if isinstance(r, list) else r, identifier=ident,
+        return ForLoopPT(ch(n['body']), n['idx'], tuple(r) if isinstance(r, list) and n.get('rng_as') != 'list' else r, identifier=ident,
                          **_kwx(n, 'parameter_constraints', 'measurements'))
     if k == 'Mapping':
         kw = {}
@@ -81,6 +88,8 @@ def build_node(n, objs):
             kw['measurement_mapping'] = {a: b for a, b in n['mmap']}
         if n.get('cmap') is not None:
             kw['channel_mapping'] = {a: b for a, b in n['cmap']}
+        if n.get('strict'):     # the class default of allow_partial_parameter_mapping
+            return MappingPT(ch(n['tmpl']), identifier=ident, **{**kw, **_kwx(n, 'parameter_constraints')})
         return MappingPT(ch(n['tmpl']), identifier=ident, allow_partial_parameter_mapping=True,
                          **{**kw, **_kwx(n, 'parameter_constraints')})
     if k == 'AtomicMulti':
@@ -117,18 +126,40 @@ def build_node(n, objs):
     raise ValueError(k)
 
 
+def denp(x):
+    """{'#np': [dtype, value]} -> numpy scalar, {'#range': [a, b, c]} -> Python range, {'#prange': [...]} -> ParametrizedRange
+    (JSON-able spellings of constructor arguments that are not JSON values)"""
+    if isinstance(x, dict):
+        if set(x) == {'#np'}:
+            import numpy
+            return getattr(numpy, x['#np'][0])(x['#np'][1])
+        if set(x) == {'#expr'}:
+            from qupulse.expressions import ExpressionScalar
+            return ExpressionScalar(x['#expr'])
+        if set(x) == {'#range'}:
+            return range(*x['#range'])
+        if set(x) == {'#prange'}:
+            from qupulse.pulses.range import ParametrizedRange
+            return ParametrizedRange(*x['#prange'])
+        return {k: denp(v) for k, v in x.items()}
+    if isinstance(x, list):
+        return [denp(e) for e in x]
+    return x
+
+
 def build(nodes):
     objs = []
     with warnings.catch_warnings():
         warnings.simplefilter('ignore')
         for n in nodes:
-            objs.append(build_node(n, objs))
+            objs.append(build_node(denp(n), objs))
     return objs
 
 
 class Gen:
-    def __init__(self, rng, int_mode=False, p_named=0.4, abstract=False, numeric=False):
+    def __init__(self, rng, int_mode=False, p_named=0.4, abstract=False, numeric=False, unsorted=False):
         self.rng = rng
+        self.unsorted = unsorted    # members of compositions in non-sorted order, with different duration expressions
         self.nodes = []
         self.objs = []
         self.meta = []          # per node: (channels tuple, atomic bool, dur spec or None)
@@ -142,6 +173,8 @@ class Gen:
     # -- helpers
     def fresh_id(self):
         self.counter += 1
+        if self.unsorted:       # identifiers that sort differently from creation / position order, mixed case
+            return '%s%d' % ('zYxW'[self.counter % 4], 50 - self.counter)
         return 'n%d' % self.counter
 
     def maybe_id(self, force=False):
@@ -152,7 +185,7 @@ class Gen:
     def add(self, node, chans, atomic, dur):
         with warnings.catch_warnings():
             warnings.simplefilter('ignore')
-            obj = build_node(node, self.objs)
+            obj = build_node(denp(node), self.objs)
         self.nodes.append(node)
         self.objs.append(obj)
         self.meta.append((tuple(chans), atomic, dur))
@@ -194,9 +227,10 @@ class Gen:
         return None
 
     # -- atomic templates on exactly the channels `chans` with duration spec `dur`
-    def atomic(self, chans, dur, depth, need=None, force_id=False):
+    def atomic(self, chans, dur, depth, need=None, force_id=False, alias=None):
+        """alias: another expression for the same duration (equal under the probe assignments only), used by leaf kinds"""
         r = self.rng
-        if need is None and not force_id:
+        if need is None and not force_id and alias is None:
             p = self.pooled(chans, atomic=True, dur=dur)
             if p is not None:
                 self.flags.add('shared')
@@ -207,10 +241,16 @@ class Gen:
         if depth > 0:
             if len(chans) >= 2:
                 kinds += ['AtomicMulti', 'AtomicMulti', 'ParAtomic']
+                if self.unsorted:
+                    kinds += ['AtomicMulti'] * 6
             kinds += ['ArithmeticAtomic', 'MapAtomic', 'ArithAtomic', 'RevAtomic']
         k = r.choice(kinds)
         ident = self.maybe_id(force_id)
         mid = MID[dur]
+        end = dur
+        if alias is not None and k in ('Table', 'Point', 'Function', 'Constant'):
+            end = alias
+            self.flags.add('dur_alias')
         if k == 'Table':
             entries = []
             for j, c in enumerate(chans):
@@ -220,7 +260,7 @@ class Gen:
                     self.flags.add('param_t')
                 if r.random() < 0.5:
                     es.append([mid, self.val(), r.choice(INTERP)])
-                es.append([dur, self.val(), r.choice(INTERP)] if r.random() < 0.8 else [dur, self.val()])
+                es.append([end, self.val(), r.choice(INTERP)] if r.random() < 0.8 else [end, self.val()])
                 entries.append([c, es])
             return self.add(dict(k='Table', id=ident, entries=entries, **self.extras(dur)), chans, True, dur)
         if k == 'Point':
@@ -229,24 +269,29 @@ class Gen:
             pts = [[0, mk(need) if not vec else [self.val(need)] + [self.val() for _ in chans[1:]]]]
             if r.random() < 0.5:
                 pts.append([mid, mk(), r.choice(INTERP)])
-            pts.append([dur, mk(), r.choice(INTERP)])
+            pts.append([end, mk(), r.choice(INTERP)])
             return self.add(dict(k='Point', id=ident, points=pts, chans=list(chans), **self.extras(dur)), chans, True, dur)
         if k == 'Function':
             ex = self.val(need, t_ok=True)
-            return self.add(dict(k='Function', id=ident, ex=ex, dur=dur, ch=chans[0], **self.extras(dur)), chans, True, dur)
+            return self.add(dict(k='Function', id=ident, ex=ex, dur=end, ch=chans[0], **self.extras(dur)), chans, True, dur)
         if k == 'Constant':
             amps = [[c, self.val(need if j == 0 else None)] for j, c in enumerate(chans)]
             name = r.choice([None, None, 'my_const'])
-            return self.add(dict(k='Constant', id=ident, dur=dur, amps=amps, name=name, **self.extras(dur, cons=False)),
+            return self.add(dict(k='Constant', id=ident, dur=end, amps=amps, name=name, **self.extras(dur, cons=False)),
                             chans, True, dur)
         if k == 'AtomicMulti':
             cut = r.randint(1, len(chans) - 1)
             a = self.atomic(chans[:cut], dur, depth - 1, need)
-            b = self.atomic(chans[cut:], dur, depth - 1)
+            alias_b = r.choice(DUR_ALIAS[dur]) if self.unsorted and dur in DUR_ALIAS and r.random() < 0.7 else None
+            b = self.atomic(chans[cut:], dur, depth - 1, alias=alias_b)
             d = r.choice([None, None, dur, 'u'])
             if d is not None:
                 self.flags.add('amc_duration')
-            return self.add(dict(k='AtomicMulti', id=ident, subs=[a, b], dur=d, **self.extras(dur)), chans, True, dur)
+            subs = [a, b]
+            if self.unsorted and r.random() < 0.6:       # the member on the later channels first
+                subs = [b, a]
+                self.flags.add('amc_swapped')
+            return self.add(dict(k='AtomicMulti', id=ident, subs=subs, dur=d, **self.extras(dur)), chans, True, dur)
         if k == 'ParAtomic':
             o = r.choice(chans)
             inner = self.atomic([c for c in chans if c != o], dur, depth - 1, need)
@@ -356,6 +401,8 @@ class Gen:
                  'Arithmetic', 'TimeReversal']
         if self.abstract:
             kinds += ['Abstract', 'Abstract']
+        if self.unsorted and len(chans) >= 2:
+            kinds += ['atomic'] * 3
         k = r.choice(kinds)
         ident = self.maybe_id(force_id)
         if k == 'atomic':
@@ -409,12 +456,17 @@ def gen_store_case(rng, idx, tier):
     int_mode = rng.random() < 0.14
     abstract = rng.random() < 0.08
     numeric = rng.random() < 0.12
-    g = Gen(rng, int_mode=int_mode, p_named=rng.choice([0.15, 0.4, 0.4, 0.7]), abstract=abstract, numeric=numeric)
+    unsorted = not int_mode and rng.random() < 0.25
+    g = Gen(rng, int_mode=int_mode, p_named=rng.choice([0.15, 0.4, 0.4, 0.7]), abstract=abstract, numeric=numeric,
+            unsorted=unsorted)
     if numeric:
         g.flags.add('numeric')
     if int_mode:
         pool = rng.choice([[0, 1], [0, 'A'], [1], [2, 0, 1]])
         g.flags.add('int_key')
+    elif unsorted:
+        pool = rng.choice(UNSORTED_POOLS)
+        g.flags.add('unsorted')
     else:
         pool = rng.choice([['A'], ['A', 'B'], ['A', 'B'], ['A', 'B', 'C'], ['out']])
     depth = rng.choice([1, 2, 2, 3]) if tier == 'quick' else rng.choice([1, 2, 3, 3, 4])
@@ -842,7 +894,7 @@ def fixed_hist_cases(tier):
 
 def gen_cases(rng, tier, n_store=None, n_doc=None):
     if n_store is None:
-        n_store = 300 if tier == 'quick' else 3000
+        n_store = 230 if tier == 'quick' else 3000
     cases = []
     tries = 0
     while len(cases) < n_store and tries < n_store * 4:
@@ -852,7 +904,7 @@ def gen_cases(rng, tier, n_store=None, n_doc=None):
         except Exception:   # noqa  generator produced an invalid template (rejected by a constructor): skip
             continue
     if n_doc is None:
-        n_doc = 90 if tier == 'quick' else 800
+        n_doc = 60 if tier == 'quick' else 800
     docs = []
     for c in cases:
         if len(docs) >= n_doc:
@@ -866,7 +918,7 @@ def gen_cases(rng, tier, n_store=None, n_doc=None):
     if n_doc == 0:      # search_failing: store cases only
         return cases
     hist = list(fixed_hist_cases(tier))
-    n_hist = 102 if tier == 'quick' else 1200
+    n_hist = 85 if tier == 'quick' else 1200
     tries = 0
     while len(hist) < n_hist + len(fixed_hist_cases(tier)) and tries < n_hist * 6:
         tries += 1
@@ -874,4 +926,12 @@ def gen_cases(rng, tier, n_store=None, n_doc=None):
             hist.append(gen_hist_case(rng, len(hist), tier))
         except Exception:   # noqa  invalid template / degenerate history: skip
             continue
-    return cases + docs + exhaustive_cases(tier) + empties_cases(tier) + hist
+    from props import c10_ord
+    r4 = c10_ord.round4_cases(tier)
+    # the declared duration of the model against the code's, for the clean random forests and the order family
+    n_dur = 45 if tier == 'quick' else 800
+    durs = [{'kind': 'dur', 'nodes': c['nodes'], 'roots': c['roots'], 'flags': ['dur']}
+            for c in cases if not ({'int_key', 'dup_id'} & set(c['flags']))][:n_dur]
+    durs += [{'kind': 'dur', 'nodes': c['nodes'], 'roots': c['roots'], 'flags': ['dur']}
+             for c in r4 if 'order' in c['flags']][::(3 if tier == 'quick' else 1)]
+    return (cases + docs + exhaustive_cases(tier) + empties_cases(tier) + r4 + durs + hist)
